@@ -17,10 +17,10 @@ package main
 
 import (
 	"go/ast"
-	"sort"
 	"go/constant"
 	"go/token"
 	"go/types"
+	"sort"
 	"strings"
 
 	"golang.org/x/tools/go/types/typeutil"
